@@ -98,6 +98,7 @@ type server struct {
 	burned    uint64
 	lastStartSeq uint64
 	trailing  uint64
+	electNotCandTerm uint64 // term of an election this server started while its state was not Candidate
 }
 
 type leaderRec struct {
@@ -112,6 +113,10 @@ type leaderRec struct {
 	lostAt           int64
 	lostSeq          uint64
 	lostN, lostTot   int
+	// the leader loop (and with it the lease check) only starts after the NotifyCh
+	// consumer has taken the notification: raft documents that it blocks on that channel
+	active  bool
+	activeT int64
 }
 
 type checker struct {
